@@ -479,3 +479,75 @@ func FuzzVerifC35SRTPublishTS(f *testing.F) {
 		}
 	})
 }
+
+// ---------------------------------------------------------------- regression: genuine defect found by the live check
+
+// c35KeySRTExtBounds: known-findings key of the defect pinned below.
+const c35KeySRTExtBounds = "c35-srt-handshake-extension-bounds"
+
+// c35CrashDatagram is the minimal unauthenticated input: ONE UDP datagram of 65 bytes sent to the SRT port.
+// SRT control packet, type HANDSHAKE, destination socket id 0; handshake CIF with version 5, a non-zero extension
+// field, handshake type CONCLUSION - followed by a single byte where an extension header (4 bytes) should start.
+var c35CrashDatagram = append([]byte{
+	0x80, 0x00, 0x00, 0x00, // control packet, type 0 (handshake), subtype 0
+	0x00, 0x00, 0x00, 0x00, // type-specific information
+	0x00, 0x00, 0x00, 0x01, // timestamp
+	0x00, 0x00, 0x00, 0x00, // destination socket id: 0 = listener
+	0x00, 0x00, 0x00, 0x05, // version 5
+	0x00, 0x00, // encryption field
+	0x00, 0x01, // extension field: HSREQ announced
+	0x00, 0x00, 0x00, 0x00, // initial packet sequence number
+	0x00, 0x00, 0x05, 0xdc, // MTU 1500
+	0x00, 0x00, 0x64, 0x00, // flow window
+	0xff, 0xff, 0xff, 0xff, // handshake type: CONCLUSION
+	0x2d, 0x7a, 0x5b, 0x1c, // SRT socket id
+	0x00, 0x00, 0x00, 0x00, // SYN cookie (not checked before the CIF is parsed)
+	0x7f, 0x00, 0x00, 0x01, 0, 0, 0, 0, 0, 0, 0, 0, 0, 0, 0, 0, // peer IP
+}, 0x00) // 1 byte of "extension"
+
+// TestVerifC35RegressSRTHandshakeExtBounds does what servers/srt.listener.runInner does - srt.Listen + Accept2 in a
+// goroutine - and sends the datagram to the socket. In mediamtx that goroutine has no recover: the panic
+// (gosrt packet.CIFHandshake.Unmarshal reads the 4-byte extension header without a length check) ends the process.
+// Here the goroutine belongs to the test and recovers, so that the outcome can be reported.
+func TestVerifC35RegressSRTHandshakeExtBounds(t *testing.T) {
+	if kit.Known(c35KeySRTExtBounds) {
+		t.Skip("listed as known finding")
+	}
+	rec := kit.R("TestVerifC35RegressSRTHandshakeExtBounds")
+	t.Cleanup(kit.Flush)
+	cfg := gosrt.DefaultConfig()
+	ln, err := gosrt.Listen("srt", "127.0.0.1:0", cfg)
+	if err != nil {
+		t.Fatalf("harness: %v", err)
+	}
+	defer ln.Close()
+	outcome := make(chan string, 1)
+	go func() {
+		defer func() {
+			if r := recover(); r != nil {
+				outcome <- fmt.Sprintf("panic: %v", r)
+			}
+		}()
+		req, err := ln.Accept2() // servers/srt/listener.go:30
+		outcome <- fmt.Sprintf("returned req=%v err=%v", req != nil, err)
+	}()
+	c, err := net.Dial("udp", ln.Addr().String())
+	if err != nil {
+		t.Fatalf("harness: %v", err)
+	}
+	defer c.Close()
+	if _, err := c.Write(c35CrashDatagram); err != nil {
+		t.Fatalf("harness: %v", err)
+	}
+	select {
+	case o := <-outcome:
+		rec.Case(true, fmt.Sprintf("one %d-byte datagram %x -> %s", len(c35CrashDatagram), c35CrashDatagram, o), "regression")
+		if strings.HasPrefix(o, "panic") {
+			t.Fatalf("C35 violated: a single unauthenticated %d-byte UDP datagram to the SRT listener panics the accept goroutine "+
+				"(servers/srt/listener.go runInner -> gosrt Accept2 -> packet.CIFHandshake.Unmarshal, no recover: the server process dies): %s\ndatagram: %x",
+				len(c35CrashDatagram), o, c35CrashDatagram)
+		}
+	case <-time.After(3 * time.Second):
+		rec.Case(true, fmt.Sprintf("one %d-byte datagram %x -> ignored", len(c35CrashDatagram), c35CrashDatagram), "regression")
+	}
+}
